@@ -1,6 +1,9 @@
 (* C08 -- Damaged/mismatched chunks and unreachable stores never masquerade as data.  Only statements here. *)
 From Coq Require Import ZArith List Bool String.
 From KV Require Import Base.Sx Base.Str Gen.Generated Model.Npy Model.StoreErr Proofs.NpyP Proofs.StoreErrP.
+From KV Require Import Model.Prune Model.LostMap Model.VfwDamage Proofs.VfwDamageP Proofs.NpyHdrP.
+From KV Require Proofs.C06P.
+From KV Require Import Proofs.PutHistoryP.
 Import ListNotations.
 Open Scope Z_scope.
 
@@ -114,7 +117,7 @@ Theorem C08_mismatch_is_badchunk : forall s shape_ok dtype_ok,
   /\ get_chunk_or_placeholder s (LArray shape_ok dtype_ok) = Raise K_BadChunk.
 Proof.
   intros s so dk H.
-  assert (G : get_chunk s (LArray so dk) = Raise K_BadChunk) by (destruct so, dk; try discriminate; reflexivity).
+  assert (G : get_chunk s (LArray so dk) = Raise K_BadChunk) by (rewrite get_chunk_array; destruct so, dk; try discriminate; reflexivity).
   split; [exact G|]. apply (bad_or_unavailable_never_filled s _ K_BadChunk G). left. reflexivity.
 Qed.
 Print Assumptions C08_mismatch_is_badchunk.
@@ -221,3 +224,262 @@ Theorem C08_put_outcome_classified : forall base writes trunc evs f,
   end.
 Proof. exact put_outcome. Qed.
 Print Assumptions C08_put_outcome_classified.
+
+(* ==== damaged chunks loaded through ChunkStoreVisFlagsWeights / a v4 data set (Model/VfwDamage.v) ====
+   "... is reported as a missing chunk (and therefore flagged data_lost when loaded through a data set)".
+   ds is an NPY chunk store holding the four arrays of a data set, each with ITS OWN chunking (C06P.cfg_ok: positive
+   chunks, the arrays agree on the length of every axis they have, a non-empty normalised preselection, p an element
+   of the window); [files a id] are the bytes under the name of chunk (array a, start coordinates id), [cover ds a p]
+   is the stored chunk of array a that covers element p.  file_damaged = absent, or the first k bytes (ANY k, 0
+   included) of a well-formed chunk file; file_healthy = a complete well-formed file of the promised dtype/shape.
+   Whatever the four chunkings are (same block counts with shifted boundaries included):
+   - an element covered by a damaged vis chunk is zero AND carries data_lost;
+   - an element covered by a damaged weights or weights_channel chunk has weight zero AND carries data_lost;
+   - an element covered by a damaged flags chunk carries data_lost and no other flag;
+   - an element all of whose four covering chunks are healthy comes back as stored, flags unchanged (no spurious
+     data_lost: the flagged elements are EXACTLY those of the damaged chunks). *)
+Theorem C08_damaged_chunk_zero_filled_and_flagged :
+  forall (parse_hdr : bytes -> option hdr) (print_hdr : hdr -> bytes) (ok : hdr -> Prop),
+  (forall m, ok m -> parse_hdr (print_hdr m) = Some m) ->
+  forall ds files wants p,
+  npy_backed parse_hdr ds files wants -> C06P.cfg_ok (cfg_of_dstore ds) p ->
+  (file_damaged print_hdr ok (files A_VIS (cover ds A_VIS p)) ->
+     dmg_vis ds p = 0 /\ Z.testbit (dmg_flags ds p) 3 = true) /\
+  (file_damaged print_hdr ok (files A_W (cover ds A_W p)) \/ file_damaged print_hdr ok (files A_WC (cover ds A_WC p)) ->
+     dmg_weights ds p = 0 /\ Z.testbit (dmg_flags ds p) 3 = true) /\
+  (file_damaged print_hdr ok (files A_FLAGS (cover ds A_FLAGS p)) ->
+     Z.testbit (dmg_flags ds p) 3 = true /\ forall i, 0 <= i -> i <> 3 -> Z.testbit (dmg_flags ds p) i = false) /\
+  ((forall a, In a arrays4 -> file_healthy print_hdr ok (files a (cover ds a p)) (wants a (cover ds a p))) ->
+     dmg_vis ds p = stored_at ds A_VIS p /\ dmg_weights ds p = stored_at ds A_W p * stored_at ds A_WC p /\
+     dmg_flags ds p = stored_at ds A_FLAGS p).
+Proof. exact damaged_chunk_zero_filled_and_flagged. Qed.
+Print Assumptions C08_damaged_chunk_zero_filled_and_flagged.
+
+(* the same for ANY back-end and ANY low-level behaviour, in terms of what the getter selected by vis_flags_weights
+   answers for the chunk: zero / data_lost exactly where that getter returned filler *)
+Theorem C08_loaded_values_follow_the_getters : forall ds p, C06P.cfg_ok (cfg_of_dstore ds) p ->
+  dmg_vis ds p = (if chunk_missing ds A_VIS (cover ds A_VIS p) then 0 else stored_at ds A_VIS p) /\
+  dmg_weights ds p = (if chunk_missing ds A_W (cover ds A_W p) || chunk_missing ds A_WC (cover ds A_WC p) then 0
+                      else stored_at ds A_W p * stored_at ds A_WC p) /\
+  dmg_flags ds p =
+    Z.lor (if chunk_missing ds A_FLAGS (cover ds A_FLAGS p) then DATA_LOST else stored_at ds A_FLAGS p)
+          (if chunk_missing ds A_VIS (cover ds A_VIS p) || chunk_missing ds A_W (cover ds A_W p)
+              || chunk_missing ds A_WC (cover ds A_WC p) then DATA_LOST else 0).
+Proof. exact dmg_values. Qed.
+Print Assumptions C08_loaded_values_follow_the_getters.
+
+(* filler is answered only for a low-level raise that the store's error map turns into a ChunkNotFound: a chunk that
+   decodes is never zero-filled, whatever its dtype/shape *)
+Theorem C08_filler_only_for_notfound : forall k s lo v, vfw_getter k s lo = Ret v -> is_filler v = true ->
+  exists e, lo = LRaise e /\ isinst (standard_errors (error_map s) e) K_ChunkNotFound = true.
+Proof. exact getter_filler_only_if_raised. Qed.
+Print Assumptions C08_filler_only_for_notfound.
+
+(* S3: an object cut at any offset (whole-object Content-Length) or a 404 is filler for both getters *)
+Theorem C08_s3_damaged_object_is_filler :
+  forall (parse_hdr : bytes -> option hdr) (print_hdr : hdr -> bytes) (ok : hdr -> Prop),
+  (forall m, ok m -> parse_hdr (print_hdr m) = Some m) ->
+  forall k major nb m body n want, ok m -> wf_file print_hdr major nb m body ->
+  existsb (Z.eqb major) [1; 2] = true -> (n < List.length (encode print_hdr major nb m body))%nat ->
+  (exists v, vfw_getter k SS3 (low_of_object parse_hdr (Some (firstn n (encode print_hdr major nb m body))) want) = Ret v
+             /\ is_filler v = true) /\
+  (exists v, vfw_getter k SS3 (low_of_object parse_hdr None want) = Ret v /\ is_filler v = true).
+Proof. exact s3_damaged_is_filler. Qed.
+Print Assumptions C08_s3_damaged_object_is_filler.
+
+(* the load as a whole: damage alone never fails it; a decodable chunk of the wrong dtype/shape covering ANY element
+   of the preselected window fails it with BadChunk (never zero-filled); an exception out of a load is never a
+   ChunkNotFound; the chunk covering an element of the window is always among the chunks the load asks for *)
+Theorem C08_damaged_store_loads :
+  forall (parse_hdr : bytes -> option hdr) (print_hdr : hdr -> bytes) (ok : hdr -> Prop),
+  (forall m, ok m -> parse_hdr (print_hdr m) = Some m) ->
+  forall ds files wants, npy_backed parse_hdr ds files wants ->
+  (forall a id, In (a, id) (needed ds) ->
+     file_damaged print_hdr ok (files a id) \/ file_healthy print_hdr ok (files a id) (wants a id)) ->
+  load_errors ds = [].
+Proof. exact damaged_store_loads. Qed.
+Print Assumptions C08_damaged_store_loads.
+
+Theorem C08_mismatched_chunk_fails_load :
+  forall (parse_hdr : bytes -> option hdr) (print_hdr : hdr -> bytes) (ok : hdr -> Prop),
+  (forall m, ok m -> parse_hdr (print_hdr m) = Some m) ->
+  forall ds files wants p a, npy_backed parse_hdr ds files wants ->
+  C06P.cfg_ok (cfg_of_dstore ds) p -> In a arrays4 ->
+  file_mismatched print_hdr ok (files a (cover ds a p)) (wants a (cover ds a p)) ->
+  In K_BadChunk (load_errors ds) /\ load_errors ds <> [].
+Proof. exact mismatched_chunk_fails_load. Qed.
+Print Assumptions C08_mismatched_chunk_fails_load.
+
+Theorem C08_load_errors_classified : forall ds,
+  (forall e, In e (load_errors ds) <-> exists a id, In (a, id) (needed ds) /\ chunk_outcome ds a id = Raise e) /\
+  (forall e, In e (load_errors ds) -> isinst e K_ChunkNotFound = false) /\
+  (forall p a, C06P.cfg_ok (cfg_of_dstore ds) p -> In a arrays4 -> In (a, cover ds a p) (needed ds)).
+Proof.
+  intro ds. split; [exact (load_error_iff ds)|]. split; [exact (load_error_not_notfound ds)|].
+  intros p a. exact (covering_chunk_is_needed ds p a).
+Qed.
+Print Assumptions C08_load_errors_classified.
+
+(* the lost-map section, the zero-fill loop, _apply_data_lost and _default_zero of the CURRENT vis_flags_weights.py
+   are, statement by statement, the code the model was written against (translated source lines) *)
+Theorem C08_vfw_source_is_modelled : lostmap_is_modelled = true /\ fill_is_modelled = true.
+Proof. exact src_is_modelled. Qed.
+Print Assumptions C08_vfw_source_is_modelled.
+
+(* non-vacuity / teeth: vis time chunks (3,1) against flags time chunks (2,2) (same block counts, shifted boundary),
+   vis chunk 0 cut to 3 bytes: dumps 0..2 are zero and flagged -- dump 2 lies in the OTHER flags chunk -- dump 3 is not *)
+Theorem C08_shifted_boundaries_example :
+  (forall t f, In t [0; 1; 2; 3] -> In f [0; 1] -> C06P.cfg_ok (cfg_of_dstore ex_ds) [t; f; 0]) /\
+  load_errors ex_ds = [] /\
+  map (dmg_vis ex_ds) [[0; 0; 0]; [1; 0; 0]; [2; 0; 0]; [3; 0; 0]] = [0; 0; 0; 17] /\
+  map (dmg_flags ex_ds) [[0; 0; 0]; [1; 0; 0]; [2; 0; 0]; [3; 0; 0]] = [9; 11; 13; 7] /\
+  map (dmg_weights ex_ds) [[0; 0; 0]; [1; 0; 0]; [2; 0; 0]; [3; 0; 0]] = [2; 2; 2; 2].
+Proof. exact (conj ex_ds_ok ex_ds_values). Qed.
+Print Assumptions C08_shifted_boundaries_example.
+
+(* ChunkStore.get_dask_array(errors=...): which getter (and with which keyword arguments) reads the chunks, for EVERY
+   value of `errors`, from the translated if/elif chain: a number -> get_chunk_or_default(default_value=errors);
+   'placeholder' -> get_chunk_or_placeholder(dryrun=False); 'dryrun' -> placeholders without reading; 'raise' ->
+   get_chunk; any other string -> ValueError.  vis_flags_weights asks for DATA_LOST (a number) for flags and for
+   'placeholder' for every other array.  The dtype/shape test after decoding of each concrete store compares both
+   attributes and raises BadChunk (translated per store). *)
+Theorem C08_getter_selection :
+  get_dask_array_getter ErrNum = GDefault /\
+  get_dask_array_getter (ErrStr "placeholder") = GPlaceholder false /\
+  get_dask_array_getter (ErrStr "dryrun") = GPlaceholder true /\
+  get_dask_array_getter (ErrStr "raise") = GGet /\
+  (forall s, String.eqb s "placeholder" = false -> String.eqb s "dryrun" = false -> String.eqb s "raise" = false ->
+     get_dask_array_getter (ErrStr s) = GValueError) /\
+  vfw_errors_arg AFlags = ErrNum /\ vfw_errors_arg AOther = ErrStr "placeholder".
+Proof. exact getter_selection_total. Qed.
+Print Assumptions C08_getter_selection.
+
+Theorem C08_decoded_check_per_store : forall s, decoded_check s = (true, true, K_BadChunk).
+Proof. exact decoded_check_all. Qed.
+Print Assumptions C08_decoded_check_per_store.
+
+(* ==== the concrete header text: the hypothesis "the parser reads back what the printer writes" is a THEOREM for the
+   parser the executable model runs with (numpy's canonical header of a simple dtype), for every descriptor made of
+   printable characters other than quote and backslash, every shape of any rank, any padding ==== *)
+Theorem C08_header_parser_reads_back_printer : forall pad m,
+  descr_ok (h_descr m) -> parse_hdr_c (print_hdr_c pad m) = Some m.
+Proof. exact parse_print_c. Qed.
+Print Assumptions C08_header_parser_reads_back_printer.
+
+(* ... so the framing theorem holds for real header text with no assumption on the parser left: *)
+Theorem C08_truncation_never_data_concrete : forall pad major nb m body k,
+  descr_ok (h_descr m) -> wf_file (print_hdr_c pad) major nb m body ->
+  (k < List.length (encode (print_hdr_c pad) major nb m body))%nat ->
+  np_load parse_hdr_c (firstn k (encode (print_hdr_c pad) major nb m body)) = Err (if Nat.eqb k 0 then EEOF else EValue)
+  /\ (existsb (Z.eqb major) [1; 2] = true ->
+      s3_read_array parse_hdr_c (firstn k (encode (print_hdr_c pad) major nb m body)) = Err EIncomplete).
+Proof. exact truncation_never_data_c. Qed.
+Print Assumptions C08_truncation_never_data_concrete.
+
+Theorem C08_complete_file_decodes_concrete : forall pad major nb m body,
+  descr_ok (h_descr m) -> wf_file (print_hdr_c pad) major nb m body ->
+  np_load parse_hdr_c (encode (print_hdr_c pad) major nb m body) = Ok (m, body).
+Proof. exact decode_encode_c. Qed.
+Print Assumptions C08_complete_file_decodes_concrete.
+
+(* ... every proper prefix of a real chunk file is filler for the getter of flags and of the other arrays, the whole
+   file is data; and the data-set level statement without any hypothesis on the parser *)
+Theorem C08_chunk_file_prefixes_concrete : forall pad k major nb m body n want,
+  hdr_ok m -> wf_file (print_hdr_c pad) major nb m body ->
+  (n < List.length (encode (print_hdr_c pad) major nb m body))%nat ->
+  (exists v, vfw_getter k SNpy (low_of_file parse_hdr_c (Some (firstn n (encode (print_hdr_c pad) major nb m body))) want) = Ret v
+             /\ is_filler v = true) /\
+  vfw_getter k SNpy (low_of_file parse_hdr_c (Some (encode (print_hdr_c pad) major nb m body)) m) = Ret Stored.
+Proof. exact npy_prefixes_c. Qed.
+Print Assumptions C08_chunk_file_prefixes_concrete.
+
+Theorem C08_damaged_chunk_zero_filled_and_flagged_concrete : forall pad ds files wants p,
+  npy_backed parse_hdr_c ds files wants -> C06P.cfg_ok (cfg_of_dstore ds) p ->
+  (file_damaged (print_hdr_c pad) hdr_ok (files A_VIS (cover ds A_VIS p)) ->
+     dmg_vis ds p = 0 /\ Z.testbit (dmg_flags ds p) 3 = true) /\
+  (file_damaged (print_hdr_c pad) hdr_ok (files A_W (cover ds A_W p)) \/
+   file_damaged (print_hdr_c pad) hdr_ok (files A_WC (cover ds A_WC p)) ->
+     dmg_weights ds p = 0 /\ Z.testbit (dmg_flags ds p) 3 = true) /\
+  (file_damaged (print_hdr_c pad) hdr_ok (files A_FLAGS (cover ds A_FLAGS p)) ->
+     Z.testbit (dmg_flags ds p) 3 = true /\ forall i, 0 <= i -> i <> 3 -> Z.testbit (dmg_flags ds p) i = false) /\
+  ((forall a, In a arrays4 -> file_healthy (print_hdr_c pad) hdr_ok (files a (cover ds a p)) (wants a (cover ds a p))) ->
+     dmg_vis ds p = stored_at ds A_VIS p /\ dmg_weights ds p = stored_at ds A_W p * stored_at ds A_WC p /\
+     dmg_flags ds p = stored_at ds A_FLAGS p).
+Proof. exact damaged_chunk_zero_filled_and_flagged_c. Qed.
+Print Assumptions C08_damaged_chunk_zero_filled_and_flagged_concrete.
+
+(* non-vacuity of the concrete statements: the 128-byte (10 + 118) header numpy writes for a (2, 3, 2) complex64 chunk *)
+Theorem C08_concrete_header_example :
+  let m := mkhdr [60; 99; 56] false [2%nat; 3%nat; 2%nat] in
+  descr_ok (h_descr m) /\ List.length (print_hdr_c 55 m) = 118%nat /\ parse_hdr_c (print_hdr_c 55 m) = Some m /\
+  wf_file (print_hdr_c 55) 1 2 m (repeat 7 96).
+Proof. exact ex_hdr_roundtrip. Qed.
+Print Assumptions C08_concrete_header_example.
+
+(* ==== unreachable / unauthorised stores under a data set ====
+   a low-level failure on ANY chunk inside the window that the store's (translated) error map turns into a
+   StoreUnavailable fails the load with it: not zero-filled, not flagged.  For the S3 store these are exactly the
+   listed classes (connection, timeout, TLS, proxy, HTTP-status errors, 401/403 = AuthorisationFailed, InvalidToken). *)
+Theorem C08_unavailable_store_fails_load : forall ds a id e,
+  In (a, id) (needed ds) -> d_low ds a id = LRaise e ->
+  isinst (standard_errors (error_map (d_store ds)) e) K_StoreUnavailable = true ->
+  In (standard_errors (error_map (d_store ds)) e) (load_errors ds) /\ load_errors ds <> [] /\
+  chunk_missing ds a id = false.
+Proof. exact unavailable_fails_load. Qed.
+Print Assumptions C08_unavailable_store_fails_load.
+
+Theorem C08_s3_error_classes :
+  classes_mapped_to SS3 K_StoreUnavailable =
+    [K_StoreUnavailable; K_AuthorisationFailed; K_InvalidToken; R_RequestException; R_ChunkedEncodingError;
+     R_ConnectionError; R_Timeout; R_ConnectTimeout; R_ContentDecodingError; R_HTTPError; R_InvalidHeader;
+     R_InvalidJSONError; R_InvalidURL; R_InvalidProxyURL; R_InvalidSchema; R_JSONDecodeError; R_MissingSchema;
+     R_ProxyError; R_SSLError; R_StreamConsumedError; R_TooManyRedirects; R_URLRequired; R_UnrewindableBodyError] /\
+  classes_mapped_to SS3 K_ChunkNotFound =
+    [K_ChunkNotFound; K_S3ObjectNotFound; K_S3ServerGlitch; R_ReadTimeout; R_RetryError; U_MaxRetryError] /\
+  classes_mapped_to SDict K_ChunkNotFound = [B_KeyError; B_IndexError; K_ChunkNotFound; K_S3ObjectNotFound; K_S3ServerGlitch].
+Proof. exact s3_classes. Qed.
+Print Assumptions C08_s3_error_classes.
+
+(* open finding C08-F5c, as a theorem about the faithful model: the NPY store's read path maps nothing to
+   StoreUnavailable and absorbs a PermissionError as a missing chunk (filler for flags and for the other arrays) *)
+Theorem C08_npy_read_unavailable_refuted :
+  classes_mapped_to SNpy K_StoreUnavailable = [] /\
+  exists e, isinst e B_OSError = true /\ e <> B_FileNotFoundError /\
+            vfw_getter AOther SNpy (LRaise e) = Ret Placeholder /\ vfw_getter AFlags SNpy (LRaise e) = Ret DefaultFill.
+Proof. exact npy_read_unavailable_refuted. Qed.
+Print Assumptions C08_npy_read_unavailable_refuted.
+
+(* ==== histories of puts to one chunk name (any number of puts, each with its own list of environment answers: crashes,
+   errors, short writes, leftovers of a dead writer's temp file) ====
+   - the chunk name always holds what it held before the history or the COMPLETE content of one of the puts;
+   - once a put has reported success the name holds that put's content or the complete content of a LATER put: nothing
+     older and nothing partial comes back, whatever fails afterwards;
+   - re-putting the same content over a complete copy is stable. *)
+Theorem C08_put_history_atomic : forall base ps f,
+  lookup (final_name base) (snd (run_puts base ps f)) = lookup (final_name base) f \/
+  exists p, In p ps /\ lookup (final_name base) (snd (run_puts base ps f)) = Some (pr_new p).
+Proof. exact puts_final_is_some_put. Qed.
+Print Assumptions C08_put_history_atomic.
+
+Theorem C08_put_history_last_success_or_later : forall base pre p post f,
+  nth (List.length pre) (fst (run_puts base (pre ++ p :: post) f)) None = Some (Ret tt) ->
+  lookup (final_name base) (snd (run_puts base (pre ++ p :: post) f)) = Some (pr_new p) \/
+  exists q, In q post /\ lookup (final_name base) (snd (run_puts base (pre ++ p :: post) f)) = Some (pr_new q).
+Proof. exact puts_history. Qed.
+Print Assumptions C08_put_history_last_success_or_later.
+
+Theorem C08_put_same_content_stable : forall base writes trunc meta_ok evs f,
+  lookup (final_name base) f = Some (new_content writes trunc) ->
+  lookup (final_name base) (snd (put_chunk base writes trunc meta_ok evs f)) = Some (new_content writes trunc).
+Proof. exact put_same_content_stable. Qed.
+Print Assumptions C08_put_same_content_stable.
+
+Theorem C08_put_history_example :
+  let A := {| pr_writes := [[1; 2]; [3]]; pr_trunc := None; pr_meta := true; pr_evs := [] |} in
+  let B := {| pr_writes := [[7; 7]; [8; 8]]; pr_trunc := None; pr_meta := true; pr_evs := [EOk; EOk; EShort 1; EErr B_OSError] |} in
+  let C := {| pr_writes := [[9; 9; 9]]; pr_trunc := None; pr_meta := true; pr_evs := [EOk; EDie 2] |} in
+  let r := run_puts [97] [A; B; C] [] in
+  nth 0 (fst r) None = Some (Ret tt) /\ nth 1 (fst r) None <> Some (Ret tt) /\ nth 2 (fst r) None = None /\
+  lookup (final_name [97]) (snd r) = Some [1; 2; 3].
+Proof. exact puts_history_example. Qed.
+Print Assumptions C08_put_history_example.
